@@ -293,12 +293,12 @@ func (v TV) Go() any {
 	case "s":
 		return Str(v["v"].([]any))
 	case "n":
-		// (the model's +-1000000 stand for the ends of the int64 range; the mapping is monotone)
+		// (the model's +-1000000 stand for the ends of the int64 range, the values next to them for the values next to those; the mapping is monotone)
 		switch n := num2(v["v"]) / 2; {
-		case n >= 1000000:
-			return int64(math.MaxInt64) - (n - 1000000)
-		case n <= -1000000:
-			return int64(math.MinInt64) - (n + 1000000)
+		case n >= 999000:
+			return int64(math.MaxInt64) - (1000000 - n)
+		case n <= -999000:
+			return int64(math.MinInt64) + (n + 1000000)
 		default:
 			return n
 		}
